@@ -35,6 +35,8 @@ type Obligation struct {
 	ModelVars map[string]*Term // name -> term whose model value is wanted
 	Forced    string           // status decided outside the solver (grammar obligations: witness search on the real code)
 	Replay    *ReplayResult    // replay already performed (grammar witnesses)
+	Witness   string           // grammar witnesses: the failing input
+	Advisory  bool             // zero-annotation sweep obligation (claimed only when in the ledger)
 }
 
 type Engine struct {
